@@ -76,6 +76,58 @@ ADSORBATES = [
     'C([Pt])OC[Pt]', 'OC(O)[Pt]', 'OC(O)([Pt])[Pt]',
 ]
 
+# molecules aimed at the correction descriptors / patterns of the shipped
+# schemes that generic generation rarely reaches (which of them actually fire
+# is measured and reported in the C02 evidence)
+TARGETED = [
+    'CC(C)C(C)(C)C', 'CC(C)(C)C(C)(C)C', 'CC(C)C(C)C', 'CCC(C)C(C)(C)CC',
+    'CC(C)C(C)=C', 'CC(C)(C)C(C)=C', 'CC(C)(C)C=C', 'CC(C)C=C',
+    'CC(C)(C)C(=C)C(C)(C)C', r'C/C(CC)=C(C)/CC', r'C/C(CC)=C(/C)CC',
+    r'CC/C(C)=C(/C)CC', r'C/C=C\C(C)(C)C', r'C/C=C/C(C)(C)C',
+    'CC=CC(C)(C)C', r'CC(C)(C)/C=C\C(C)(C)C', r'CC(C)(C)/C=C/C(C)(C)C',
+    'CC(C)(C)C=CC(C)(C)C', r'C/C(=C/C(C)(C)C)C', r'CC(C)(C)/C(C)=C\C',
+    r'C/C=C\C=C/C', r'C/C=C\C=C\C', r'C/C=C\CC', r'CC/C=C\C(C)C',
+    'CC(C)(C)OC(C)(C)C', 'CC(C)OC(C)(C)C', 'CC(C)OC(C)C', 'COC(C)(C)C',
+    'C=C1C=C1', 'C=C1CC1', 'C=C1CCC1', 'C1=CCCCCC1', 'C1=CC=CCCC1',
+    'C1=CC=CC=CC1', 'C1=CCCCCCC1', r'C1=C\CCCCCC/1', r'C1=C/CCCCCC/1',
+    'C1=CC=CC=CCC1', 'C1=CC=CC=CC=C1', 'C1CCCCCCCC1', 'C1=CCCCCCCC1',
+    r'C1=C\CCCCCCC/1', r'C1=C/CCCCCCC/1', 'C1C2CC12', 'C1CC2CC2C1',
+    'C1CCC2CC2C1', 'C1CCCC2CC2C1', 'C1CCCCC2CC2C1', 'C1COCOC1', 'C1OCOCO1',
+    'C1CC=COC1', 'O=C1CCC(=O)O1', 'O=C1CCCC(=O)O1', 'O=C1C=CC(=O)O1',
+    'C1CCOC1', 'C1=CCC=C1', 'C1CC=CC1', 'C1=CCOC1', 'C1=COC=CC1',
+    'C$C', 'O=C(=O)~[Pt]', 'C~[Pt]', 'O~[Pt]', 'CC~[Pt]', 'O=C=O',
+    'c1ccc2cc3ccccc3cc2c1', 'c1cc2cccc3ccc4cccc1c4c32',
+    'Cc1ccccc1C(C)(C)C', 'CC(C)(C)c1ccccc1', 'Cc1cccc(C)c1C',
+    'OC1CCCO1', 'CC1CO1', 'CC1(C)CO1', 'C1CC1C', 'CC1=CC1',
+]
+
+
+def surface_chains(metal='Pt'):
+    """Chains of 2-4 carbons (and C-O ends) whose end atoms carry 1-3 metal
+    bonds and whose inner carbons carry a strong bond or not: the shapes the
+    surface ring-strain descriptors are written for."""
+    M = '[%s]' % metal
+    ends_c = {1: 'C%s' % M, 2: 'C(%s)%s' % (M, M), 3: 'C(%s)(%s)%s' % (M, M,
+                                                                     M)}
+    out = []
+    starts = {1: '%sC' % M, 2: '%sC(%s)' % (M, M), 3: '%sC(%s)(%s)' % (M, M,
+                                                                     M)}
+    inner = ['', 'C', 'C(=O)', 'C(=C)', 'C(=O)C(=O)', 'CC', 'C(=O)C',
+             'C(=C)C(=O)']
+    for a in (1, 2, 3):
+        for mid in inner:
+            for b in (1, 2, 3):
+                out.append(starts[a] + mid + ends_c[b])
+            out.append(starts[a] + mid + 'O%s' % M)
+            out.append(starts[a] + mid + 'C(%s)=O' % M)
+            out.append(starts[a] + mid + 'C(%s)=C' % M)
+            out.append(starts[a] + mid + 'C(%s)(%s)O' % (M, M))
+    out += ['OC(%s)(%s)C(%s)(%s)%s' % (M, M, M, M, M),
+            'OC(%s)C(%s)(%s)%s' % (M, M, M, M),
+            '%sOC(%s)(%s)C(%s)%s' % (M, M, M, M, M)]
+    return out
+
+
 OUTSIDE = ['CS', 'CCl', 'CF', 'C[Si](C)(C)C', 'CP', 'C[N+](C)(C)C', 'C[O-]',
            '[NH4+]', 'CBr', 'O=S=O', 'c1ccsc1', '[Na+].[Cl-]', 'CB(C)C']
 
@@ -291,10 +343,12 @@ def pool(seed, n_random=60, n_ads=40, metal='Pt', nitrogen=False,
             seen.add(c)
             out.append(c)
 
-    for s in CURATED:
-        push(s)
+    for s in CURATED + TARGETED:
+        push(swap_metal(s, metal))
     for s in ADSORBATES:
         push(swap_metal(s, metal))
+    for s in surface_chains(metal):
+        push(s)
     elements = ('C', 'C', 'C', 'O', 'N') if nitrogen else ('C', 'C', 'C',
                                                             'O')
     tries = 0
